@@ -129,11 +129,11 @@ func mkJobs(in Input) []*jobDesc {
 			case 0:
 				d.name = fmt.Sprintf("app%d.cpu", i)
 			case 1:
-				d.name = fmt.Sprintf("app %d{tag=v&x=%%41+b}", i)
+				d.name = fmt.Sprintf("a %d{t=v&x=%%41+b}", i)
 			case 2:
-				d.name = fmt.Sprintf("a/%d?#;,.inuse_space{k=\"q\"}", i)
+				d.name = fmt.Sprintf("a/%d?#;,.cpu{k=\"q\"}", i)
 			default:
-				d.name = fmt.Sprintf("job-%d.alloc_objects", i)
+				d.name = fmt.Sprintf("j%d", i)
 			}
 			d.tag = d.name
 			switch r.Intn(5) {
@@ -167,9 +167,9 @@ func mkJobs(in Input) []*jobDesc {
 			if in.Mode == "direct" {
 				t.Insert([]byte(d.tag), 1, true)
 			} else {
-				ns := lib.Range(r, 0, 3)
+				ns := lib.Range(r, 0, 2)
 				for s := 0; s < ns; s++ {
-					t.Insert([]byte(fmt.Sprintf("f%d;g%d", r.Intn(3), r.Intn(3))), uint64(r.Intn(9)+1), true)
+					t.Insert([]byte(fmt.Sprintf("f%d", r.Intn(3))), uint64(r.Intn(300)+1), true)
 				}
 			}
 			d.body = t.Bytes()
@@ -423,14 +423,26 @@ func runDirect(in Input, jobs []*jobDesc) (res lib.Result) {
 	}
 	defer st.Close()
 
-	// gate: the first Put of a new series creates its segment through the cache's exported New field;
+	// The series is created by the harness before the uploader starts (a render that overlaps the FIRST ingest of a
+	// series can replace its freshly created dimension/segment by an empty one: cache.Get's miss path is not atomic —
+	// reported separately under C08; it is not what C20 is about).
+	key, _ := storage.ParseKey("directapp.cpu{}")
+	{
+		t := tree.New()
+		t.Insert([]byte("pre"), 1)
+		if err := st.Put(&storage.PutInput{StartTime: time.Unix(1500000100, 0), EndTime: time.Unix(1500000110, 0), Key: key, Val: t,
+			SpyName: "gospy", SampleRate: 100, Units: "samples", AggregationType: "sum"}); err != nil {
+			return lib.Result{Crash: "harness: pre-Put: " + err.Error()}
+		}
+	}
+	// gate: every Put into a new 10 s slot creates that slot's tree through the tree cache's exported New field;
 	// the wrapper tells the harness that the (only) worker is inside storage.Put and holds it there.
 	entered := make(chan struct{}, 1)
 	releaseGate := make(chan struct{})
-	segs := st.VerifCache("segments")
-	origNew := segs.New
+	trees := st.VerifCache("trees")
+	origNew := trees.New
 	var gated int32
-	segs.New = func(k string) interface{} {
+	trees.New = func(k string) interface{} {
 		if in.Paced && atomic.CompareAndSwapInt32(&gated, 0, 1) {
 			entered <- struct{}{}
 			<-releaseGate
@@ -471,7 +483,6 @@ func runDirect(in Input, jobs []*jobDesc) (res lib.Result) {
 	}
 	openGate()
 
-	key, _ := storage.ParseKey("directapp.cpu{}")
 	count := func() (map[string]int, int64) {
 		out, err := st.Get(&storage.GetInput{StartTime: time.Unix(1500000000, 0), EndTime: time.Unix(1700000000, 0), Key: key})
 		m := map[string]int{}
@@ -480,6 +491,9 @@ func runDirect(in Input, jobs []*jobDesc) (res lib.Result) {
 			return m, 0
 		}
 		flatten(out.Tree.VerifDump(), nil, func(stack string, v uint64) {
+			if stack == "pre" {
+				return
+			}
 			m[stack] += int(v)
 			n += int64(v)
 		})
@@ -628,8 +642,10 @@ func gen(r *rand.Rand, idx int, tier string) Input {
 		in.Burst = lib.Range(r, 90, 110)
 	case 2:
 		in.Burst = 100 + in.Threads + lib.Range(r, -2, 2)
-	default:
+	case 3:
 		in.Burst = lib.Range(r, 1, 400)
+	default:
+		in.Burst = lib.Range(r, 1, 150)
 	}
 	in.Token = lib.Pick(r, []string{"", "", "tok", "psx-abc DEF/+=", "B"})
 	in.Path = lib.Pick(r, []string{"", "", "/", "/base", "/a/b"})
@@ -644,7 +660,7 @@ func gen(r *rand.Rand, idx int, tier string) Input {
 		if lib.Chance(r, 0.5) {
 			in.Burst = lib.Range(r, 95, 140)
 		} else {
-			in.Burst = lib.Range(r, 1, 250)
+			in.Burst = lib.Range(r, 1, 150)
 		}
 	} else {
 		switch r.Intn(8) {
